@@ -107,6 +107,21 @@ def run(ctx, prog):
             return '%s bypasses parse / try_from_core' % nm
         A.require('%s/reaches-the-iota-checks' % nm, paths, r_ctor, replay=R('[normal]'))
 
+    # the infallible constructors (from tag bytes / alias id / placeholder) go through the same gate: the value they
+    # return is what parse accepted (so an unvalidated network name cannot slip into a DID)
+    for nm in ('new', 'from_alias_id', 'placeholder'):
+        f = prog.one(IMPL + nm + '$')
+        paths, ex = A.paths(f, inline=IMPL + r'(new|from_alias_id)$')
+
+        def r_new(p, nm=nm):
+            if p.kind != 'return':
+                return None   # the expect on parse's result is the documented panic of these constructors
+            t = strip(p.term())
+            ok = isinstance(t, tuple) and t and t[0] == 'field' and t[3] == 'Ok' and isinstance(t[1], tuple) and t[1][0] == 'app' \
+                and re.search(r'IotaDID::parse$|IotaDID::try_from_core$', t[1][1])
+            return None if ok else 'IotaDID::%s returns a value that did not pass parse / try_from_core: %s' % (nm, term_str(t)[:120])
+        A.require('IotaDID::%s/value-is-what-parse-accepted' % nm, paths, r_new, replay=R('[ctor]'))
+
     # try_from_core: validity, lower-case normal form, normalisation
     f = prog.one(IMPL + r'try_from_core$')
     paths, ex = A.paths(f)
@@ -292,7 +307,15 @@ def run(ctx, prog):
 def main(ctx):
     prog, info = load(CRATES, src_only=SRC)
     ctx.extra['mir'] = info
-    ctx.outside += ['to_lowercase Unicode behaviour', 'prefix_hex internals', 'the generic DID parser (C10)',
+    ctx.outside += ['to_lowercase Unicode behaviour', 'prefix_hex internals', 'the generic DID parser itself (third-party; C10)',
                     'equality <=> (network, tag bytes) follows from lower-case normal form + default network omitted (argued, not solved)',
                     'one-position 75-byte strings under Kani (11 GB after 13 min in the design probe)']
     guarded(ctx, 'iota did audit', 'M', lambda: run(ctx, prog))
+    # "without path, query or fragment" is decided on the generic DID gate that IotaDID::parse / try_from_core delegate to (C10's
+    # obligations on CoreDID, re-used)
+    import c10
+
+    def generic_gate():
+        prog2, info2 = load(c10.CRATES)
+        c10.audits(ctx, prog2, only=r'^check_validity/|^CoreDID::.*validated-before-construction')
+    guarded(ctx, 'generic DID gate (CoreDID)', 'M', generic_gate)
